@@ -12,6 +12,53 @@ class Head:
     def __init__(s, env, first): s.env = env; s.first = first
 
 
+class AliasEnv(dict):
+    """view of an environment under canonical names for the loop-carried variables (the proofs speak about the roles `distance`,
+    `counter`, `permeate composition`, not about what the locals happen to be called)"""
+    def __init__(s, env, alias): dict.__init__(s); s.env = env; s.alias = alias
+    def _k(s, k): return s.alias.get(k, k)
+    def __getitem__(s, k): return s.env[s._k(k)]
+    def __setitem__(s, k, v): s.env[s._k(k)] = v
+    def __contains__(s, k): return s._k(k) in s.env
+    def get(s, k, d=None): return s.env.get(s._k(k), d)
+    def pop(s, k, *d): return s.env.pop(s._k(k), *d)
+    def items(s): return s.env.items()
+    def values(s): return s.env.values()
+    def keys(s): return s.env.keys()
+    def __iter__(s): return iter(s.env)
+    def __len__(s): return len(s.env)
+
+
+def infer_roles(fdef, widx, w):
+    """canonical name -> actual local name for the fixed-point loop: `d` = the carried variable of the loop test, `iterations` = the carried
+    variable incremented by one, `permeate_composition` = the remaining carried variable initialised before the loop,
+    `permeate_composition_new` = the remaining carried variable first assigned inside the loop.  Empty if the shape is not recognised."""
+    carried = carried_names(w)
+    pre = set()
+    for st in fdef.body[:widx]:
+        for n in ast.walk(st):
+            if isinstance(n, ast.Name) and isinstance(n.ctx, ast.Store): pre.add(n.id)
+    test_names = [n.id for n in ast.walk(w.test) if isinstance(n, ast.Name) and n.id in carried]
+    alias = {}
+    if len(test_names) >= 1: alias['d'] = test_names[0]
+    for n in ast.walk(w):
+        if isinstance(n, ast.AugAssign) and isinstance(n.op, ast.Add) and isinstance(n.target, ast.Name) and isinstance(n.value, ast.Constant) and n.value.value == 1:
+            alias['iterations'] = n.target.id
+        if isinstance(n, ast.Assign) and len(n.targets) == 1 and isinstance(n.targets[0], ast.Name) and isinstance(n.value, ast.BinOp) and isinstance(n.value.op, ast.Add) \
+                and isinstance(n.value.left, ast.Name) and n.value.left.id == n.targets[0].id and isinstance(n.value.right, ast.Constant) and n.value.right.value == 1:
+            alias['iterations'] = n.targets[0].id
+    used = set(alias.values())
+    rest_pre = sorted((carried & pre) - used); rest_new = sorted(carried - pre - used)
+    if len(rest_pre) == 1: alias['permeate_composition'] = rest_pre[0]
+    if len(rest_new) == 1: alias['permeate_composition_new'] = rest_new[0]
+    # only genuine renamings are recorded; a canonical name that is used for something else makes the inference void
+    for c, a in list(alias.items()):
+        if c == a: del alias[c]
+    for c in alias:
+        if c in carried | pre and c not in alias.values(): return {}
+    return alias
+
+
 def find_while(fdef, src):
     idx = [i for i, st in enumerate(fdef.body) if isinstance(st, ast.While)]
     inner = [n for st in fdef.body for n in ast.walk(st) if isinstance(n, (ast.While,)) and n not in fdef.body]
@@ -40,11 +87,18 @@ def segments(cx, fdef, bind, havoc, contracts=None, pre=(), inv=None, known=('d'
     src = cx.src
     widx, w = find_while(fdef, src)
     carried = carried_names(w)
+    alias = infer_roles(fdef, widx, w)
+    back = {a: c for c, a in alias.items()}
+    canon = lambda names: {back.get(n, n) for n in names}
+    known = tuple(alias.get(k_, k_) for k_ in known)
+    if alias:
+        havoc0 = havoc
+        havoc = lambda ex, env, carried_: havoc0(ex, AliasEnv(env, alias), canon(carried_))
 
     def run_prefix(ex):
         env = bind(ex)
         ex.block(fdef.body[:widx], env)
-        return Head(env, True)
+        return Head(AliasEnv(env, alias) if alias else env, True)
 
     def run_from_head_with(hv):
         def run(ex):
@@ -57,7 +111,7 @@ def segments(cx, fdef, bind, havoc, contracts=None, pre=(), inv=None, known=('d'
             if ex.decide(ex.truth(ex.eval(w.test, env), w), w):
                 ex.in_body = True
                 ex.block(w.body, env)
-                return Head(env, False)
+                return Head(AliasEnv(env, alias) if alias else env, False)
             ex.in_body = False
             ex.block(fdef.body[widx + 1:], env)
             return None
@@ -73,7 +127,7 @@ def segments(cx, fdef, bind, havoc, contracts=None, pre=(), inv=None, known=('d'
         if ex.decide(ex.truth(ex.eval(w.test, env), w), w):
             ex.in_body = True
             ex.block(w.body, env)
-            return Head(env, False)
+            return Head(AliasEnv(env, alias) if alias else env, False)
         ex.in_body = False
         ex.block(fdef.body[widx + 1:], env)
         return None
@@ -105,7 +159,7 @@ def segments(cx, fdef, bind, havoc, contracts=None, pre=(), inv=None, known=('d'
         hp = cx.explore(run_from_head_with(havoc2), contracts=contracts, pre=pre)
     else:
         hp = cx.explore(run_from_head, contracts=contracts, pre=pre)
-    return pp, hp, carried
+    return pp, hp, canon(carried)
 
 
 def _havoc_unknown(ex, env, unknown, shapes):
